@@ -10,6 +10,7 @@ import (
 	"runtime"
 	"runtime/debug"
 	"runtime/metrics"
+	"strings"
 	"sync/atomic"
 	"syscall"
 	"time"
@@ -65,10 +66,55 @@ func ReadJournal(path string) (pos, idx, sub int, payload []byte, ok bool) {
 	return pos, idx, sub, b[journalHeader : journalHeader+n], true
 }
 
+// BlockedInLibrary looks at a dump of all goroutines for one that waits for a lock (mutex, rwmutex, semaphore, condition)
+// taken by code of the library under test: the innermost frame outside runtime / sync / internal belongs to mow.cli
+func BlockedInLibrary(dump string) string {
+	for _, g := range strings.Split(dump, "\n\n") {
+		lines := strings.Split(g, "\n")
+		if len(lines) < 3 || !strings.HasPrefix(lines[0], "goroutine ") {
+			continue
+		}
+		h := lines[0]
+		if !(strings.Contains(h, "[sync.Mutex.Lock") || strings.Contains(h, "[sync.RWMutex.") || strings.Contains(h, "[semacquire") || strings.Contains(h, "[sync.Cond.Wait")) {
+			continue
+		}
+		for i := 1; i < len(lines); i += 2 {
+			f := lines[i]
+			if strings.HasPrefix(f, "runtime.") || strings.HasPrefix(f, "sync.") || strings.HasPrefix(f, "internal/") {
+				continue
+			}
+			// (the linker escapes the dot of the import path in symbol names: github.com/jawher/mow%2ecli)
+			if strings.HasPrefix(f, "github.com/jawher/mow.cli") || strings.HasPrefix(f, "github.com/jawher/mow%2ecli") {
+				return h + " " + f
+			}
+			break
+		}
+	}
+	return ""
+}
+
 func (w *worker) watchdog(memLimit uint64) {
 	sample := []metrics.Sample{{Name: "/memory/classes/heap/objects:bytes"}}
+	var lastProbeWall, lastProbeCPU int64
 	for {
 		time.Sleep(50 * time.Millisecond)
+		// a case that has been running for 45 s of wall time while the whole process used less than half a second of
+		// CPU over the last 15 s: if a goroutine waits for a lock inside the library, nothing is left to release it
+		if now := time.Now().UnixNano(); now-w.caseWall.Load() > int64(45*time.Second) && w.caseWall.Load() > 0 {
+			if lastProbeWall == 0 || lastProbeWall < w.caseWall.Load() {
+				lastProbeWall, lastProbeCPU = now, cpuNow()
+			} else if now-lastProbeWall > int64(15*time.Second) {
+				used := cpuNow() - lastProbeCPU
+				lastProbeWall, lastProbeCPU = now, cpuNow()
+				if used < int64(500*time.Millisecond) {
+					buf := make([]byte, 8<<20)
+					if where := BlockedInLibrary(string(buf[:runtime.Stack(buf, true)])); where != "" {
+						fmt.Fprintf(os.Stderr, "ABORT the process stopped making progress: a goroutine waits for a lock inside the library that nothing will release (%s)\n", where)
+						os.Exit(6)
+					}
+				}
+			}
+		}
 		start := w.caseStart.Load()
 		if start < 0 {
 			continue
